@@ -1008,6 +1008,11 @@ func (k *Kernel) GetsockoptInt(fd, level, opt int) (int, syscall.Errno) {
 		return 0, syscall.ENOTSOCK
 	}
 	if level == syscall.SOL_SOCKET && opt == syscall.SO_ERROR {
+		if f.kind == fkUDP {
+			er := f.udp.pendingErr
+			f.udp.pendingErr = 0
+			return int(er), 0
+		}
 		if f.kind == fkTCP {
 			er := f.tcp.connErr
 			if er == 0 && f.tcp.dead && !f.tcp.failed {
